@@ -275,7 +275,7 @@ class ForceMatrix:
                     raise ModuleNotFoundError(f'lmfit is required for {solver_method=}')
                 arguments = (mprime, b)
                 x0_original = kwargs.get("initial_condition", np.ones(len(self.frame.internal_big_edges)))
-                x0, removed_indices = self.get_new_initial_condition(x0_original, what="other")
+                x0, removed_indices = self.get_new_initial_condition(list(x0_original), what="other")
                 x0 = [val for val in x0 if val > 0]
                 x0.append(1)
 
@@ -306,11 +306,8 @@ class ForceMatrix:
                                             params=parameters,
                                             args=arguments)
                 # TODO: replace Matrix by ndarray in this code
-                xres = [solution.params[name].value for name in solution.params]
-
-                # reinsert all the removed spaces
-                for index in removed_indices:
-                    xres = xres.insert(index, -1)
+                # the values for the removed edges are reinserted below, by get_solution_no_discarded
+                xres = np.array([solution.params[name].value for name in solution.params])
             else:
                 try:
                     xres = np.linalg.inv(mprime) @ b
